@@ -108,8 +108,10 @@ class ProgramIndex:
         for (path, name), e in ast.enums.items():
             for v in e.get("variants", []):
                 self.variant_enum.setdefault(v["name"] if isinstance(v, dict) else v, set()).add(name)
+        self.struct_named = {}
         for (path, name), e in ast.structs.items():
             self.structs.add(name)
+            self.struct_named[name] = not e.get("tuple")
 
     @staticmethod
     def crate_of(file):
@@ -127,10 +129,14 @@ class ProgramIndex:
             return crate[0]
         return None
 
-    def method(self, ctor, name, cur_file):
+    def method(self, ctor, name, cur_file, value=None):
         types = set(self.variant_enum.get(ctor, ()))
         if ctor in self.structs:
             types.add(ctor)
+        if value is not None and len(types) > 1 and ctor in self.structs and ctor in self.struct_named:
+            # `Ranges { .. }` the struct vs `ParsedValue::Ranges(..)` the variant: told apart by the shape of the value
+            named = len(value) > 3 and bool(value[3])
+            types = {ctor} if named == self.struct_named[ctor] and not value[2] else (types - {ctor} if value[2] or named != self.struct_named[ctor] else types)
         cands = [f for t in types for f in self.by_qual.get((t, name), []) if f.node["sig"]["inputs"] and _is_self_param(f.node["sig"]["inputs"][0])]
         return self._pick(cands, cur_file) if cands else None
 
@@ -603,6 +609,8 @@ class AEval(dtable.Eval):
                         cenv[kk] = e2[kk]
         if f[0] == "fnref":
             return self.call_fn(f[1], args)
+        if f[0] == "localfn":
+            return self._call_program_fn(f[1], args)
         if f[0] == "coll-new":
             return L()
         if f[0] == "builtin-fn":
@@ -975,6 +983,10 @@ class AEval(dtable.Eval):
                 v = self.call_fn("%s::%s" % (self._impl_stack[-1], last), args)
                 self._write_back(e["args"], env)
                 return v
+            if f["path"] in env and env[f["path"]][0] == "localfn":
+                v = self._call_program_fn(env[f["path"]][1], args)
+                self._write_back(e["args"], env)
+                return v
             if f["path"] in env:
                 return self.apply(env[f["path"]], args)
             if f["path"] in COLLECTION_CTORS:
@@ -1007,6 +1019,9 @@ class AEval(dtable.Eval):
                 return args[0]
             if last == "take" and f["path"].endswith("mem::take") and len(args) == 1:
                 return args[0]
+            if getattr(self, "opaque_paths", None) is not None and self.opaque_paths.search(f["path"]):
+                # a function of the environment (e.g. an associated function of a type parameter): an uninterpreted value
+                return A("%s(%s)" % (f["path"], ", ".join(fmt(x) for x in args)))
             raise Unknown("call to " + f["path"])
         return self.apply(self.ex(f, env), args)
 
@@ -1066,6 +1081,9 @@ class AEval(dtable.Eval):
                 return C("None")
             env[rnode["path"]] = ("list", lst[1:])
             return C("Some", lst[0])
+        if m in ("peek", "peek_mut") and not e["args"] and is_node(rnode) and rnode["k"] == "Path" and rnode["path"] in env and env[rnode["path"]][0] == "list":
+            lst = env[rnode["path"]][1]
+            return C("Some", lst[0]) if lst else C("None")
         if m in ("retain", "retain_mut", "sort", "sort_unstable", "sort_by", "sort_unstable_by", "sort_by_key", "sort_unstable_by_key", "sort_by_cached_key", "reverse", "dedup", "truncate", "swap", "rotate_left", "rotate_right"):
             tgt, lo, hi = rnode, None, None
             while is_node(tgt) and tgt["k"] in ("Paren", "Ref", "Unary"):
@@ -1438,6 +1456,8 @@ class AEval(dtable.Eval):
             if m == "entry" and len(args) == 1 and (pairs or not xs):
                 hit = [x for x in xs if x[1][0] == args[0]]
                 return C("Entry", args[0], C("Some", hit[0][1][1]) if hit else C("None"))
+            if m in ("get", "get_mut", "remove") and not xs and len(args) == 1:
+                return C("None")      # empty map / Vec
             if m in ("get", "get_mut") and pairs and args and args[0][0] != "int":
                 for x in xs:
                     if x[1][0] == args[0]:
@@ -1555,7 +1575,7 @@ class AEval(dtable.Eval):
             # an opaque value: the result is named after the receiver and the method (arguments are not interpreted)
             return A("%s.%s" % (r[1], m))
         if r[0] == "ctor" and PROGRAM is not None:
-            fn = PROGRAM.method(r[1], m, self._cur_file())
+            fn = PROGRAM.method(r[1], m, self._cur_file(), r)
             if fn is not None and len(fn.node["sig"]["inputs"]) == len(args) + 1:
                 v = self._call_program_fn(fn, [r] + args)
                 self._write_back([rnode] + list(e["args"]), env)
@@ -1749,6 +1769,12 @@ class AEval(dtable.Eval):
         shadow = set()
         aliases = {}
         last = UNIT
+        # fn items declared in this block are in scope in the whole block (and shadow same-named functions outside)
+        for st in b["stmts"]:
+            if st["k"] == "Fn" and st.get("body") is not None and st.get("name"):
+                import astlib as _astlib
+                env[st["name"]] = ("localfn", _astlib.Fn(st, self._cur_file() or ""))
+                shadow.add(st["name"])
         try:
             for st in b["stmts"]:
                 k = st["k"]
